@@ -101,6 +101,8 @@ class WatermarkPoolSink(PoolSink):
       if item.state <= ChannelState.Open:
         return item
       else:
+        self._current_size -= 1
+        self._varz.size(self._current_size)
         self._DiscardSink(item)
     return None
 
